@@ -3,7 +3,7 @@
    MathComp's true inverse and determinant.  "Integrates to one" = the object evaluates to lnN (mean,
    covariance), whose integral is one by the Gaussian integral (specification GI, not proved). *)
 From mathcomp Require Import all_ssreflect all_algebra.
-From GT Require Import Tensor DetExec LogDom Obj Factor Measure Pdf Cond EvalLemmas Spec C01_proofs PdfLemmas C04_proofs C05_proofs C06_proofs C0809_proofs C1013_proofs.
+From GT Require Import Tensor DetExec LogDom Obj Factor Measure Pdf Cond EvalLemmas Spec C01_proofs PdfLemmas C04_proofs C05_proofs C06_proofs C0809_proofs C1013_proofs Moments Approx C02_approx.
 Import GRing.Theory Num.Theory.
 Local Open Scope ring_scope.
 
@@ -54,7 +54,28 @@ Proof. exact: get_marginal_ok. Qed.
 Theorem C02_closure_marginal_transformation (c : cond LS) (p : measure LS) :
   pdf_ok p -> cond_ok c -> cDx c = uD p -> marg_pos c p -> pdf_ok (affine_marginal c p).
 Proof. exact: affine_marginal_ok. Qed.
+
+(* approximate affine transformations (moment matching): the returned marginals / joints are densities as soon as the matched
+   covariance -- symmetric by construction, the code symmetrises it -- has positive determinant *)
+Theorem C02_approximate_feature_marginal Dx Dk Dy (M : mat F) (b : vec F) (Sig : mat F) (Ex : vec F) (Exx : mat F) (Ek : vec F) (Ekx Ekk : mat F) :
+  0 < \det (mxf Dy Dy (fm_Sigma Dx Dk Dy M b Sig Ex Exx Ek Ekx Ekk)) ->
+  pdf_ok (mk_pdf (LS:=LS) false 1 Dy (fun _ => fm_Sigma Dx Dk Dy M b Sig Ex Exx Ek Ekx Ekk) (fun _ => fm_mu Dx Dk M b Ex Ek) None None).
+Proof. exact: approx_feature_marginal_density. Qed.
+Theorem C02_approximate_feature_joint Dx Dk Dy (M : mat F) (b : vec F) (Sig : mat F) (Ex : vec F) (Exx : mat F) (Ek : vec F) (Ekx Ekk : mat F)
+    (mux : vec F) (Sx : mat F) :
+  (forall i j, Sx i j = Sx j i) ->
+  0 < \det (mxf (Dx + Dy) (Dx + Dy) (fm_joint_Sigma Dx Dk Dy M b Sig Ex Exx Ek Ekx Ekk mux Sx)) ->
+  pdf_ok (mk_pdf (LS:=LS) false 1 (Dx + Dy) (fun _ => fm_joint_Sigma Dx Dk Dy M b Sig Ex Exx Ek Ekx Ekk mux Sx)
+                 (fun _ => fm_joint_mu Dx Dk M b Ex Ek mux) None None).
+Proof. exact: approx_feature_joint_density. Qed.
+Theorem C02_approximate_hetero_marginal Dy Da Dk Dx (A M : mat F) (b mux : vec F) (Sx : mat F) (Dint : vec F) :
+  0 < \det (mxf Dy Dy (het_Sigma_y Dy Da Dk Dx A M b mux Sx Dint)) ->
+  pdf_ok (mk_pdf (LS:=LS) false 1 Dy (fun _ => het_Sigma_y Dy Da Dk Dx A M b mux Sx Dint) (fun _ => het_mu Dx M b mux) None None).
+Proof. exact: approx_hetero_marginal_density. Qed.
 End C02.
+Print Assumptions C02_approximate_feature_marginal.
+Print Assumptions C02_approximate_feature_joint.
+Print Assumptions C02_approximate_hetero_marginal.
 Print Assumptions C02_log_integral.
 Print Assumptions C02_normalize.
 Print Assumptions C02_get_density.
